@@ -64,6 +64,22 @@ def eval_object(ctx, pyhf, entry, history, i):
                  [kind(got), np.asarray(tl.tolist(got)).tolist()], [kind(fresh), np.asarray(tl.tolist(fresh)).tolist()])
 
 
+def switch(pyhf, rng, name, prec, opt=None):
+    """reach the backend (name, prec) through one of the call forms set_backend documents: by name, by a backend object of that
+    precision, by a backend object of the *other* precision overridden by `precision=` (the argument always wins), or — when the name
+    does not change — by the current backend object itself with a conflicting `precision=`.  Returns the form used."""
+    other = '32b' if prec == '64b' else '64b'
+    forms = ['name', 'object', 'object-other-precision']
+    if pyhf.tensorlib.name == name: forms.append('current-object')
+    form = rng.choice(forms) if rng.random() < 0.5 else 'name'
+    args = [] if opt is None else [opt]
+    if form == 'name': pyhf.set_backend(name, *args, precision=prec)
+    elif form == 'object': pyhf.set_backend(getattr(pyhf.tensor, name + '_backend')(precision=prec), *args)
+    elif form == 'object-other-precision': pyhf.set_backend(getattr(pyhf.tensor, name + '_backend')(precision=other), *args, precision=prec)
+    else: pyhf.set_backend(pyhf.tensorlib, *args, precision=prec)
+    return form
+
+
 def run(ctx):
     import pyhf
     from pyhf import events
@@ -95,10 +111,11 @@ def run(ctx):
             if r < 0.35:
                 k = rng.randrange(len(BKS) - (0 if (ctx.thorough or h == 3) else 2))
                 opt = rng.choice(['scipy', 'minuit'])
-                pyhf.set_backend(BKS[k][0], opt, precision=BKS[k][1])
+                form = switch(pyhf, rng, BKS[k][0], BKS[k][1], opt)
+                ctx.tally('set_backend_form', form)
                 if k != cur: nswitch += 1
                 cur = k
-                model_ops.append(['set', k]); history.append(['set_backend', BKS[k][0], BKS[k][1], opt])
+                model_ops.append(['set', k]); history.append(['set_backend', BKS[k][0], BKS[k][1], opt, form])
             elif r < 0.65 or not objs:
                 what = rng.choice(['model', 'model', 'interp', 'viewer'])
                 before = ncallbacks() if observed else 0
@@ -147,8 +164,9 @@ def run(ctx):
                       and j < len(BKS) - (0 if ctx.thorough else 2)]
         cand = other_prec if (other_prec and rng.random() < 0.6) else [j for j in range(len(BKS) - (0 if ctx.thorough else 2)) if j != cur]
         k = rng.choice(cand)
-        pyhf.set_backend(BKS[k][0], precision=BKS[k][1]); nswitch += 1; cur = k
-        model_ops.append(['set', k]); history.append(['set_backend', BKS[k][0], BKS[k][1], 'scipy'])
+        form = switch(pyhf, rng, BKS[k][0], BKS[k][1]); nswitch += 1; cur = k
+        ctx.tally('set_backend_form', form)
+        model_ops.append(['set', k]); history.append(['set_backend', BKS[k][0], BKS[k][1], 'scipy', form])
         for i, x in enumerate(objs):
             if x[1] is not None:
                 eval_object(ctx, pyhf, x, history, i)
